@@ -2,6 +2,7 @@ import PoxModel.Proofs.ActionsSpec
 import PoxModel.Proofs.ActionsPorts
 import PoxModel.Proofs.ActionsPortMod
 import PoxModel.Proofs.ActionsPure
+import PoxModel.Proofs.ActionsTotal
 /-!
 # C12 — the datapath applies actions and port rules as the specification prescribes
 
@@ -11,13 +12,13 @@ chain type of C14; it follows the code **after** the proposed repairs D7 (enqueu
 does not run the receive half of `rx_packet` again) and C12-1 (VLAN action arguments reduced to the field width).
 Specification: `Spec/ActionsSpec.lean` (`ser`, `rewrite`, `expand`, `emitted`, `accepts`, `tally`).
 
-* `port_guards`, `flood_excludes_ingress`, `counters_exact`, `outputs_only`, `port_mod_spec` hold for **every** frame the model accepts
+* `port_guards`, `flood_excludes_ingress`, `counters_exact`, `outputs_only`, `actions_total`, `port_mod_spec` hold for **every** frame the model accepts
   (no well-formedness), every action list, every port configuration, every operation history, every nesting depth.
 * `actions_spec`, `rx_spec`, `checksums_ok` hold for every **well-formed** frame (`Frame.WF`: every header field in its wire
   range, every IP datagram below 64 KiB — C14's `Good` without the demultiplexing conditions), every action list with
   arguments as the wire format delivers them, every port configuration, every flow table whose entries do not output to
   TABLE (OpenFlow 1.0 allows TABLE only in packet-out).
-* `enqueue_d7_defect`, `table_recount_d8_defect`, `vlan_pcp_c121_defect`, `strip_vlan_c122_defect`: the unrepaired lines violate the statements on
+* `enqueue_d7_defect`, `table_recount_d8_defect`, `vlan_pcp_c121_defect`, `strip_vlan_c122_defect`, `nw_tos_c126_defect`: the unrepaired lines violate the statements on
   concrete inputs (replayed against the real code by harness/c12.py).
 -/
 namespace Pox.C12
@@ -160,18 +161,24 @@ For every variant of the code with the D8 repair, every state and every operatio
 link change, packet-out with any actions and any frame, frame from the wire): the statistics afterwards are
 `countStep` — the previous ones, plus one frame and its wire length on the receive side of the ingress port iff the
 operation is a frame from the wire that `accepts` admits, plus, per port, the number and total length of the frames in the
-operation's output log (`tally`).  Hence (`runOps`) for every operation history. -/
+operation's output log (`tally`).  Hence (`runOps`) for every operation history — third conjunct, in closed form, not via
+`step`: final = `closed initial (rxLog …) (all logs)`: per port, initial + number / bytes of the receptions `accepts` admits
+(judged against the configuration as the port-mods, link changes and set-configs before them — `cfgStep` — left it) + number /
+bytes of the frames in all output logs. -/
 theorem counters_exact :
     (∀ (var : Variant) (sw : Sw) (op : Op) (sw' : Sw) (outs : List Out), var.d8 = false →
         step var sw op = .ok (sw', outs) → sw'.stats = countStep sw op outs) ∧
     (∀ (var : Variant) (ops : List Op) (sw sw' : Sw) (outss : List (List Out)), var.d8 = false →
         runOps var sw ops = .ok (sw', outss) → sw'.stats = countOps var sw ops outss) ∧
+    (∀ (var : Variant) (ops : List Op) (sw sw' : Sw) (outss : List (List Out)), var.d8 = false →
+        runOps var sw ops = .ok (sw', outss) → sw'.stats = closed sw.stats (rxLog sw ops) outss.flatten) ∧
     (∀ (var : Variant) (fuel : Nat) (sw : Sw) (acts : List Action) (f : Frame) (inPort : Nat) (sw' : Sw) (f' : Frame)
         (outs : List Out), var.d8 = false → run var fuel sw acts f inPort = .ok (sw', f', outs) →
         sw' = { sw with stats := tally sw.stats outs }) := by
-  refine ⟨?_, ?_, ?_⟩
+  refine ⟨?_, ?_, ?_, ?_⟩
   · intro var sw op sw' outs hv h; exact step_counters var hv sw op sw' outs h
   · intro var ops sw sw' outss hv h; exact runOps_counters var hv ops sw sw' outss h
+  · intro var ops sw sw' outss hv h; exact runOps_closed var hv ops sw sw' outss h
   · intro var fuel sw acts f inPort sw' f' outs hv h
     exact (run_sound var hv fuel sw acts f inPort sw' f' outs h).state
 
@@ -268,17 +275,49 @@ example : (rxObj {} exSw exFrame 4).map (fun r => (r.1.stats.map fun s => (s.no,
 example : accepts exSw exFrame 3 = true ∧ accepts exSw exFrame 9 = false ∧
     accepts { exSw with ports := [⟨1, [], 2 + 4, 0⟩] } exFrame 1 = false := by decide
 
-/-- **Every emitted IPv4/TCP/UDP frame has valid length fields and checksums.**  Under the hypotheses of `actions_spec`
-every frame in the output log is `ser` of a well-formed frame `f'`, and for such a frame (`Valid`, by the C14 theorems
-`ipv4_hdr`, `udp_hdr`, `tcp_hdr`, `icmp_hdr`): the IPv4 header sums to zero under RFC 1071 and its total-length field is the
-datagram's length; the UDP length field is the datagram's length and its checksum field is RFC 768's; the TCP data offset
-counts the header with its padded options and the checksum field is RFC 793's; an ICMP message sums to zero —
-at every nesting level (behind a VLAN tag, inside an ICMP error). -/
+/-- **Every emitted IPv4/TCP/UDP frame has valid length fields and checksums** — with the packet named.  Under the
+hypotheses of `actions_spec` let `F i` be the packet after the first `i` effective actions
+(`rewrite (tableRewrite sw) inPort ((effective acts).take i) f`) and, for the flow entry `racts` that an output to TABLE
+reaches, `G i j` the packet after `j` more of the entry's actions.  Then
+1. every frame of the output log is `serF (F i)` for the position `i < |effective acts|` of the output that emitted it, or
+   `serF (G i j)` for an output `j` of the entry reached through an output `i` to TABLE — no other bytes are emitted;
+2. every `F i` and every `G i j` is well-formed and `Valid`: in its wire form (`serF x = ethBytes x.eth ++ ser none x.pay`)
+   the IPv4 header sums to zero under RFC 1071 and its total-length field is the datagram's length; the UDP length field is
+   the datagram's length and its checksum field is RFC 768's; the TCP data offset counts the header with its padded options
+   and the checksum field is RFC 793's; an ICMP message sums to zero — at every nesting level (behind a VLAN tag, inside an
+   ICMP error), by the C14 theorems `ipv4_hdr`, `udp_hdr`, `tcp_hdr`, `icmp_hdr`.
+(The witness is determined by the position, not chosen: a frame with a wrong checksum cannot be "explained" by an opaque
+payload.) -/
 theorem checksums_ok (sw : Sw) (acts : List Action) (f : Frame) (inPort : Nat) (hf : f.WF) (ha : ∀ a ∈ acts, ArgsOk a)
-    (hr : RulesOk sw.table) (p : Nat) (b : Bytes) (hm : Out.frame p b ∈ emitted sw acts f inPort) :
-    ∃ f' : Frame, f'.WF ∧ b = ethBytes f'.eth ++ ser none f'.pay ∧ Valid none f'.pay := by
-  obtain ⟨f', hw', rfl⟩ := emitted_framesWF sw hr acts ha f hf inPort p b hm
-  exact ⟨f', hw', rfl, valid_of_wf f'.pay none hw'.2⟩
+    (hr : RulesOk sw.table) :
+    (∀ p b, Out.frame p b ∈ emitted sw acts f inPort →
+      ∃ i, i < (effective acts).length ∧
+        (b = serF (rewrite (tableRewrite sw) inPort ((effective acts).take i) f) ∨
+         ∃ racts j, lookup sw.table inPort = some racts ∧ j < (effective racts).length ∧
+           b = serF (rewrite (fun f _ => f) inPort ((effective racts).take j)
+                      (rewrite (tableRewrite sw) inPort ((effective acts).take i) f)))) ∧
+    (∀ i, (rewrite (tableRewrite sw) inPort ((effective acts).take i) f).WF ∧
+          Valid none (rewrite (tableRewrite sw) inPort ((effective acts).take i) f).pay) ∧
+    (∀ racts i j, lookup sw.table inPort = some racts →
+        (rewrite (fun f _ => f) inPort ((effective racts).take j)
+          (rewrite (tableRewrite sw) inPort ((effective acts).take i) f)).WF ∧
+        Valid none (rewrite (fun f _ => f) inPort ((effective racts).take j)
+          (rewrite (tableRewrite sw) inPort ((effective acts).take i) f)).pay) := by
+  have hF : ∀ i, (rewrite (tableRewrite sw) inPort ((effective acts).take i) f).WF := fun i =>
+    rewrite_wf _ _ (fun x hx => tableRewrite_wf sw hr inPort x hx) _ f hf (effective_args ha i)
+  refine ⟨fun p b hm => emitted_frame_witness sw acts f inPort p b hm, fun i => ⟨hF i, valid_of_wf _ none (hF i).2⟩, ?_⟩
+  intro racts i j hl
+  obtain ⟨r, hrm, rfl⟩ := lookup_mem hl
+  have hG := rewrite_wf (fun f _ => f) inPort (fun _ h => h) ((effective r.acts).take j) _ (hF i) (effective_args (hr r hrm).2 j)
+  exact ⟨hG, valid_of_wf _ none hG.2⟩
+
+/-- on the example (ingress 3) the FLOOD at position 3 emits the packet after `output 2, set_nw_src, set_vlan_pcp 5`: tagged,
+new source address, and exactly those bytes -/
+example : (rewrite (tableRewrite exSw) 3 ((effective exActs).take 3) exFrame).pay =
+      .vlan ⟨5, 0, 0, 0x0800⟩ (.ipv4 { exIp with src := 0xc0a80101 } (.udp exUdp (.raw [1, 2, 3]))) ∧
+    Out.frame 4 (serF (rewrite (tableRewrite exSw) 3 ((effective exActs).take 3) exFrame)) ∈ emitted exSw exActs exFrame 3 := by
+  refine ⟨rfl, ?_⟩
+  decide +kernel
 
 /-- `Valid` is not vacuous: on the example it is exactly the receiver's checks of an IPv4/UDP datagram (`u` = the UDP
 datagram inside, 11 bytes) -/
@@ -320,6 +359,33 @@ example : (∀ a ∈ [Action.output P_FLOOD 0, .enqueue 4 1, .output P_CONTROLLE
   intro a ha
   simp only [List.mem_cons, List.not_mem_nil, or_false] at ha
   rcases ha with rfl | rfl | rfl | rfl <;> simp [pureOutput, P_FLOOD, P_TABLE, P_CONTROLLER, P_IN_PORT]
+
+/-- **Frames that are not well-formed** (a parse that gave up half-way, truncated headers, an attacker-chosen packet-out):
+`actions_spec` does not speak about them; this does, for every `ethernet` object with a payload — every object the parser
+returns — every action list (any arguments), port table, flow table and nesting depth of the repaired code:
+1. no handler raises and the payload stays (`handle1_total`);
+2. the action loop either returns or fails in `packet.pack()` / by exhausting the TABLE nesting allowance — no other
+   exception escapes;
+3. when it returns, the packet handed back and the packet behind every emitted frame are the input after some sequence of
+   handlers (`Reach`), and the frame's bytes are exactly `pack()` of that packet.
+Not decided here: whether `pack()` can fail on a tree the parser produced (that is the parser's side, C15). -/
+theorem actions_total :
+    (∀ (a : Action) (f : Frame), f.pay ≠ .nil → ∃ f', handle1 {} a f = .ok f' ∧ f'.pay ≠ .nil) ∧
+    (∀ (fuel : Nat) (sw : Sw) (acts : List Action) (f : Frame) (inPort : Nat) (e : Actions.Err), f.pay ≠ .nil →
+        run {} fuel sw acts f inPort = .error e → e = .recursion ∨ ∃ pe, e = .pack pe) ∧
+    (∀ (fuel : Nat) (sw : Sw) (acts : List Action) (f : Frame) (inPort : Nat) (sw' : Sw) (f' : Frame) (outs : List Out),
+        f.pay ≠ .nil → run {} fuel sw acts f inPort = .ok (sw', f', outs) →
+        f'.pay ≠ .nil ∧ Reach f f' ∧ ∀ p b, Out.frame p b ∈ outs → ∃ x, Reach f x ∧ packFrame x = .ok b) :=
+  ⟨fun a f hp => handle1_total a f hp,
+   fun fuel sw acts f inPort e hp h => (run_total fuel sw acts f inPort hp).2 e h,
+   fun fuel sw acts f inPort sw' f' outs hp h => (run_total fuel sw acts f inPort hp).1 sw' f' outs h⟩
+
+/-- a frame that ends inside the IPv4 header behind a tag: every action applies without an exception, the strip works, the
+unparsed remainder goes out as it came -/
+example : (packetOut {} exSw [.setNwSrc 1, .setTpDst 2, .stripVlan, .setVlanVid 9, .output 4 0]
+      ⟨{ exEth with type := 0x8100 }, .vlan ⟨1, 0, 5, 0x0800⟩ (.unparsed "ipv4" [0x45, 0, 0])⟩ 1).map (·.2)
+    = .ok [.frame 4 ([0x66, 0x77, 0x88, 0x99, 0xaa, 0xbb, 0, 0x11, 0x22, 0x33, 0x44, 0x55, 0x81, 0x00, 0, 9, 8, 0, 0x45, 0, 0])] := by
+  decide +kernel
 
 /-! ## port-mod -/
 
@@ -382,5 +448,16 @@ theorem strip_vlan_c122_defect :
     (packetOut {} exSw [.stripVlan, .output 4 0] ⟨{ exEth with type := 0x8100 }, .unparsed "vlan" [0, 5]⟩ 1).map (·.2)
       = .ok [.frame 4 [0x66, 0x77, 0x88, 0x99, 0xaa, 0xbb, 0, 0x11, 0x22, 0x33, 0x44, 0x55, 0x81, 0x00, 0, 5]] := by
   decide +kernel
+
+/-- C12-6: `set_nw_tos` stores the whole octet — the packet's ECN bits are overwritten, where OpenFlow 1.0 ("IP ToS (DSCP
+field, 6 bits)") replaces the six DSCP bits only: ToS 0x03 (ECN CE) + `set_nw_tos 0xb8` must give 0xbb, the unrepaired line
+gives 0xb8 -/
+theorem nw_tos_c126_defect :
+    (handle1 { c126 := true } (.setNwTos 0xb8) ⟨exEth, .ipv4 { exIp with tos := 3 } (.raw [])⟩).map (·.pay)
+      = .ok (.ipv4 { exIp with tos := 0xb8 } (.raw [])) ∧
+    (handle1 {} (.setNwTos 0xb8) ⟨exEth, .ipv4 { exIp with tos := 3 } (.raw [])⟩).map (·.pay)
+      = .ok (.ipv4 { exIp with tos := 0xbb } (.raw [])) ∧
+    (rewrite1 (.setNwTos 0xb8) ⟨exEth, .ipv4 { exIp with tos := 3 } (.raw [])⟩).pay = .ipv4 { exIp with tos := 0xbb } (.raw []) :=
+  ⟨rfl, rfl, rfl⟩
 
 end Pox.C12
